@@ -46,6 +46,10 @@ type Op struct {
 	// script requests only: metadata the script itself sets (set_tx_meta / set_account_meta)
 	SMeta  map[string]string            `json:"smeta"`
 	SAMeta map[string]map[string]string `json:"sameta"`
+	// script requests only: the destination of the LAST posting is passed as the account variable $d with this raw
+	// value (possibly padded / malformed); VarOK = the repository's address validator accepts the raw value
+	VarD  string `json:"vard"`
+	VarOK bool   `json:"varok"`
 }
 
 func (o *Op) Norm() {
